@@ -183,6 +183,9 @@ pub struct SoloCfg {
     /// the scripted peer may selectively acknowledge sequence numbers the endpoint never sent
     #[serde(default)]
     pub hostile_sack: bool,
+    /// `CongestionConfig { tracing: true }`: the controller runs behind the tracing wrapper
+    #[serde(default)]
+    pub cc_tracing: bool,
 }
 
 impl SoloCfg {
@@ -207,6 +210,7 @@ impl SoloCfg {
             peer_lens: vec![mss],
             peer_respects_window: false,
             hostile_sack: false,
+            cc_tracing: false,
         }
     }
     pub fn opts(&self) -> SocketOpts {
@@ -216,7 +220,7 @@ impl SoloCfg {
             vsock_tx_bufsize_bytes_initial: NonZeroUsize::new(self.tx_init),
             vsock_tx_bufsize_bytes_max: NonZeroUsize::new(self.tx_max),
             disable_nagle: !self.nagle,
-            congestion: Default::default(),
+            congestion: librqbit_utp::CongestionConfig { tracing: self.cc_tracing, ..Default::default() },
             parent_span: None,
             cancellation_token: Default::default(),
             max_retransmissions: NonZeroUsize::new(self.max_retx),
